@@ -148,3 +148,7 @@ package pod_info
 //@   ensures fresh(result.scalarResources) && fresh(result.migResources) && fresh(result.draGpuCounts)
 //@   ensures [one-pod] result.scalarResources[resource_info.PodsResourceName] == 1
 //@ end
+
+// NewTaskInfoWithBindRequest / resourceClaimInfoFromPodClaims: not under contract.  Blockers (reported):
+// resource_info.ResourceClaimSliceToMap has no contract and (types.NamespacedName).String is an unmodelled
+// external; both havoc the heap, also inside loop 2 of resourceClaimInfoFromPodClaims.
